@@ -2,7 +2,7 @@
 import json, os, sys, time
 from .common import *
 from .engine import *
-from . import cratebuild, corpus_ctor, corpus_extra, corpus_serde, corpus_arb, verdict, corpus_verdict, corpus_c05, audit, corpus_nostd
+from . import cratebuild, corpus_ctor, corpus_extra, corpus_serde, corpus_arb, verdict, corpus_verdict, corpus_c05, audit, corpus_nostd, corpus_spelling
 
 ASSUME_COMMON = ["lowercase/uppercase meaning = this toolchain's str::to_lowercase/to_uppercase",
                  "NaN vs bound validators: either verdict accepted (DESIGN section 3)",
@@ -546,7 +546,48 @@ def check_c15(tier, seed):
     return finish(res)
 
 
-CHECKS = {"C15": check_c15, "C05": check_c05, "C08": check_c08, "C09": check_c09, "C14": check_c14, "C04": check_c04, "C10": check_c10, "C01": check_c01, "C03": check_c03, "C06": check_c06, "C07": check_c07, "C11": check_c11, "C12": check_c12, "C13": check_c13, "C16": check_c16}
+def check_c02(tier, seed):
+    res = Result("C02", tier, seed)
+    res.rule = ("spelling corpus: one declaration per (syntactic form x family x validator kind): integer bounds (~50 forms: literals with _, suffix, hex/bin/octal, negative, spaced minus, "
+                "const, -K, (K), ((K)), {K}, K+1, 1+K, 30-K, 1<<4, K<<2, A|B, &, ^, *, /, %, !, T::MIN/MAX, T::MAX-1, fn calls, module paths, associated consts, casts, if/match/index/"
+                "tuple-field/method-call expressions), float bounds (~36 forms), string length bounds, regex (literal, raw, raw-hash, escaped, static path, module path), with/"
+                "predicate as closure / typed closure / mut closure / path / method path / turbofish path / bodies containing commas, pipes, nested closures, blocks; attribute layouts "
+                "(all 24 block orders x trailing commas, repeated sanitize/validate/derive/default blocks with different contents). Every declaration the macro accepts is run through "
+                "the C01 reference-model monitor with the bound value computed in Python (never the macro's parse), on inputs concentrated around the denoted bound, its negation, "
+                "half/double and +-10; a declaration the macro rejects is fine for this property. A case is a (spelling class, accepted|rejected) pair, non-trivial when accepted "
+                "declarations of the class were driven through both outcomes of the rule.")
+    decls = corpus_spelling.build(tier, seed)
+    out, by_id = runtime_check(res, "c02-%s" % tier, decls, ["C01"] + (["C03"] if True else []), max_quarantine_frac=1.1)
+    if out is None:
+        return finish(res)
+    rejected = set(res.extra.get("coverage_extra", {}).get("unspecified_declarations_rejected", {}).keys())
+    cls_of = {d.id: next(t[3:] for t in d.tags if t.startswith("sp=")) for d in decls}
+    classes = {}
+    for d in decls:
+        c = classes.setdefault(cls_of[d.id], {"accepted": 0, "rejected": 0})
+        c["rejected" if d.id in rejected else "accepted"] += 1
+    reports = out["C01"] + out.get("C03", [])
+    for r in reports:
+        r["property"] = "C02"
+    absorb_reports(res, reports, by_id)
+    for v in res.violations:
+        did = v["decl"].split(":")[-1]
+        v["signature"] = "spelling:%s:%s" % (cls_of.get(did, "?"), v["signature"])
+    res.classes = set("%s|%s" % (k, o) for k, c in classes.items() for o in ("accepted", "rejected") if c[o])
+    res.extra.setdefault("coverage_extra", {})["spelling_classes"] = classes
+    # every accepted declaration must have been exercised on both sides of its rules
+    both = sum(1 for r in out["C01"] if r["hist"].get("ok", 0) > 0 and any(k.startswith("err:") for k in r["hist"]))
+    res.guard("accepted_declarations_with_both_outcomes", both, 200)
+    res.guard("spelling_classes", len(classes), 100)
+    res.guard("classes_with_accepted_declarations", sum(1 for c in classes.values() if c["accepted"]), 80)
+    res.guard("classes_with_rejected_declarations", sum(1 for c in classes.values() if c["rejected"]), 3)
+    res.samples = [{"class": cls_of[d.id], "declaration": d.decl_text(), "macro_verdict": "rejected" if d.id in rejected else "accepted", "denoted": str([v.denoted for v in d.vals])}
+                   for d in decls[::max(1, len(decls) // 10)]][:10]
+    res.assumptions += ASSUME_COMMON + ["expression semantics: Rust integer / IEEE float arithmetic as modelled in the generator for the listed forms"]
+    return finish(res)
+
+
+CHECKS = {"C02": check_c02, "C15": check_c15, "C05": check_c05, "C08": check_c08, "C09": check_c09, "C14": check_c14, "C04": check_c04, "C10": check_c10, "C01": check_c01, "C03": check_c03, "C06": check_c06, "C07": check_c07, "C11": check_c11, "C12": check_c12, "C13": check_c13, "C16": check_c16}
 
 
 def run_check(prop, tier, seed):
